@@ -225,6 +225,9 @@ func join(xs []string) string {
 	return strings.Join(xs, ",")
 }
 
+// State is the canonical projection of the module state the observation lines carry (hx.Stater).
+func (r *R) State(ctx sdk.Context) string { return r.state(ctx) }
+
 // state renders the module state and the bank slice, canonically.
 func (r *R) state(ctx sdk.Context) string {
 	k := r.env.HTLC
